@@ -503,8 +503,13 @@ class HostGen:
             if self.ok("loop-start-step") and ch.flag(1, 3, "lss"):
                 start, step = ch.draw(3, "lstart"), 1 + ch.draw(2, "lstep")
                 self.kinds.add("loop-start-step")
+                if ch.flag(1, 3, "countdown"):
+                    # count-down loop: start high, negative step, stop = start + n * step >= 0
+                    step = -step
+                    start = n * (-step) + ch.draw(2, "lstart2")
+                    self.kinds.add("loop-count-down")
             # "n" = one more than the largest index value the body sees (what an indexed array must hold)
-            top = start + max(n - 1, 0) * step + 1
+            top = (start + max(n - 1, 0) * step + 1) if step > 0 else start + 1
             self.loops.append({"kind": "loop", "n": top, "form": form})
             b = self.body()
             self.loops.pop()
